@@ -34,7 +34,7 @@ func init() {
 	})
 	register(&Prop{
 		ID:    "C19",
-		Rules: []*Rule{scoped(rOrder, "the hint/detail/link/tag/safe-detail accessors", func(_ *core.Ctx, k string) bool { return !strings.Contains(k, "GetOneLineSource") }), rHintProviders, rDedup, rFlattenSep, rGuardField, {Name: "R-LOOP-EXITS", Doc: rLoopExits.Doc, Run: func(c *core.Ctx) {
+		Rules: []*Rule{scoped(rOrder, "the hint/detail/link/tag/safe-detail accessors", func(_ *core.Ctx, k string) bool { return !strings.Contains(k, "GetOneLineSource") }), rHintProviders, rDedup, rFlattenSep, rGuardField, scoped(rAlwaysWraps, "the hint/detail/link/key/tag/safe-detail constructors", func(_ *core.Ctx, k string) bool { return containsAny(k, "WithHint", "WithDetail", "WithIssueLink", "WithTelemetry", "WithContextTags", "WithSafeDetails", "UnimplementedError") }), scoped(rStdIdentity, "the accessor packages", func(_ *core.Ctx, k string) bool { return containsAny(k, "hintdetail.", "issuelink.", "telemetrykeys.", "contexttags.", "safedetails.", "errbase.GetAllSafeDetails") }), {Name: "R-LOOP-EXITS", Doc: rLoopExits.Doc, Run: func(c *core.Ctx) {
 			runLoopExits(c, map[string]bool{"telemetrykeys.GetTelemetryKeys": true, "issuelink.GetAllIssueLinks": true, "contexttags.GetContextTags": true, "errbase.GetAllSafeDetails": true})
 		}}},
 		Explain: "Decides the structural side of the aggregation contract: the standard-hint providers exist and use the exported texts; hints/details accessors descend before they emit (innermost-first) while links/tags/safe-details append from the outermost layer; hints are appended only on the not-seen edge of a set keyed by the hint, details are not de-duplicated; both Flatten functions use the documented separator; optional members are emitted under a test of that very member; the walking loops have no early exit (every layer and every key is seen). " +
@@ -43,7 +43,7 @@ func init() {
 	})
 	register(&Prop{
 		ID:    "C12",
-		Rules: []*Rule{rRetain, rErrRefs, rHideKeep, scoped(rCodec, "clauses A4-A6: every safe-carrying field is written, restored and read", func(_ *core.Ctx, k string) bool { return containsAny(k, "] A4 ", "] A5 ", "] A6 ") })},
+		Rules: []*Rule{rRetain, rErrRefs, rHideKeep, rLoopAlias, scoped(rStdIdentity, "formatting and reporting code", func(_ *core.Ctx, k string) bool { return containsAny(k, "errutil.", "errbase.", "report.", "withstack.", "safedetails.", "barriers.", "secondary.") }), scoped(rCodec, "clauses A4-A6: every safe-carrying field is written, restored and read", func(_ *core.Ctx, k string) bool { return containsAny(k, "] A4 ", "] A5 ", "] A6 ") })},
 		Explain: "Decides that every input the library declares PII-free reaches a SAFE position (redact format string, redact.Safe argument, or a field handed out by SafeDetails()/printed as Safe) through every forwarding layer - so it is not redacted away; that captured error arguments are attached as secondary errors on every path; that content behind barriers/secondary errors is folded into SafeDetails() and printed; and (R-CODEC) that those fields have wire-slot agreement so they are still there after a hop. " +
 			"NOT decided: presence of a given token in the final report text (string-level), GetAllSafeDetails' per-layer walk beyond UnwrapOnce.",
 		Trusted: []string{"go/ssa", "the safe-input contract of DESIGN §4.5"},
@@ -64,14 +64,14 @@ func init() {
 	})
 	register(&Prop{
 		ID:    "C01",
-		Rules: []*Rule{scoped(rCodec, "fields that Error() reads, and the cause", codecTextFields), rOpaque, rTreeRec, rRegType, rSep, scoped(rShape, "the opaque types (what an unknowing process renders)", func(_ *core.Ctx, k string) bool { return strings.Contains(k, "opaque") }), scoped(rWalkMulti, "the encoder walk", func(_ *core.Ctx, k string) bool { return containsAny(k, "EncodeError", "is a leaf for UnwrapOnce") }), rSiblingGuard},
+		Rules: []*Rule{scoped(rCodec, "fields that Error() reads, and the cause", codecTextFields), rOpaque, rTreeRec, rRegType, rSep, scoped(rShape, "the opaque types (what an unknowing process renders)", func(_ *core.Ctx, k string) bool { return strings.Contains(k, "opaque") }), scoped(rWalkMulti, "the encoder walk", func(_ *core.Ctx, k string) bool { return containsAny(k, "EncodeError", "is a leaf for UnwrapOnce") }), rSiblingGuard, rLoopAlias, scoped(rFormatArg, "encoders, decoders and the opaque types", func(_ *core.Ctx, k string) bool { return containsAny(k, ".decode", ".encode", "opaque") })},
 		Explain: "Decides the structural necessary conditions of text/shape preservation: writer/reader slot agreement for every field that Error() reads (R-CODEC), verbatim keep-and-re-emit of message, details, message type and causes by unknowing processes (R-OPAQUE-TRANSPORT), cause/branch recursion on both sides in index order with no branch dropped for any count (R-TREE-RECURSION, R-WALK-MULTI), decoders rebuilding the key's type (no drift after hop 1), one separator constant removed exactly (R-SEP), and Error()/formatter shape agreement. " +
 			"NOT decided: equality of Error() strings for all messages (in particular suffix-matching ambiguity in extractPrefix for messages containing \": \"), protobuf marshalling itself.",
 		Trusted: []string{"go/ssa", "gogo/protobuf"},
 	})
 	register(&Prop{
 		ID:    "C02",
-		Rules: []*Rule{scoped(rCodec, "identity-relevant fields: those Error() reads, explicit marks, domains", codecIdentityFields), rRegType, rOpaque, rTypeKeyWho, rMarkLayers, rTreeRec, rSep},
+		Rules: []*Rule{scoped(rCodec, "identity-relevant fields: those Error() reads, explicit marks, domains", codecIdentityFields), rRegType, rOpaque, rTypeKeyWho, rMarkLayers, rTreeRec, rSep, scoped(rShape, "the opaque types (the text an unknowing process contributes to identity)", func(_ *core.Ctx, k string) bool { return strings.Contains(k, "opaque") }), scoped(rFormatArg, "encoders, decoders and the opaque types", func(_ *core.Ctx, k string) bool { return containsAny(k, ".decode", ".encode", "opaque") }), scoped(rStdIdentity, "identity tests", func(_ *core.Ctx, k string) bool { return containsAny(k, "errors.Is", "errors.As") })},
 		Explain: "Identity = (Error() text, chain of (family name, extension)). Decides that every identity-relevant field has slot agreement (incl. withMark's explicit mark and withDomain's extension), decoders rebuild the key's type, unknowing hops keep and re-emit the received names, every consumer of identity goes through getTypeDetails with the full mark where the extension matters, and a mark has one full type mark per layer. " +
 			"NOT decided: that text is preserved (C01's undecided part), semantics of foreign Is methods, 'never starts matching' over all pairs.",
 		Trusted: []string{"go/ssa"},
@@ -85,7 +85,7 @@ func init() {
 	})
 	register(&Prop{
 		ID:    "C07",
-		Rules: []*Rule{rHide, rHideKeep, rBarrierCtor, rWrapDual, rErrRefs, rFormatArg},
+		Rules: []*Rule{rHide, rHideKeep, rBarrierCtor, rWrapDual, rErrRefs, rFormatArg, rSecondaryAttach, scoped(rAlwaysWraps, "the barrier and secondary-error constructors", func(_ *core.Ctx, k string) bool { return containsAny(k, "Handled", "Opaque", "CombineErrors", "WithSecondaryError", "AssertionFailure", "AssertionError") })},
 		Explain: "Decides, for all compositions and after decoding (decoders rebuild the same types; opaque fallbacks keep the payload inside an Any), that the error stored behind a barrier or as a secondary error cannot reach any Return, call, comparison or store other than printing, encoding and the safe-details walk (so no Unwrap/Cause/Is/As/accessor can see it); that it stays printed in %+v and folded into SafeDetails(); that every constructor which hides a parameter never also exposes it; and that Cause()/Unwrap() of every wrapper return the same, visible, field. " +
 			"NOT decided: 'Handled keeps the hidden text exactly' (redact rendering = Error()), behaviour of foreign types embedded in the hidden content.",
 		Trusted: []string{"go/ssa"},
@@ -108,14 +108,14 @@ func init() {
 	})
 	register(&Prop{
 		ID:    "C14",
-		Rules: []*Rule{rProtocol, rWrapDual, scoped(rWalkMulti, "Is, IsAny, As", func(_ *core.Ctx, k string) bool { return containsAny(k, "markers.Is", "errutil.As", "is a leaf for UnwrapOnce") }), forwardScoped("Is", "IsAny", "As", "If", "HasType", "HasInterface", "Unwrap", "UnwrapOnce", "UnwrapAll", "UnwrapMulti", "Cause")},
+		Rules: []*Rule{rProtocol, rWrapDual, rStdIdentity, scoped(rWalkMulti, "Is, IsAny, As", func(_ *core.Ctx, k string) bool { return containsAny(k, "markers.Is", "errutil.As", "is a leaf for UnwrapOnce") }), forwardScoped("Is", "IsAny", "As", "If", "HasType", "HasInterface", "Unwrap", "UnwrapOnce", "UnwrapAll", "UnwrapMulti", "Cause")},
 		Explain: "Decides the structural side of drop-in compatibility: the library probes exactly the standard protocol methods (Is/As/Unwrap/Unwrap []error/Cause) with their exact signatures and precedence; every library wrapper implements both Cause() and Unwrap() over the same field so stdlib and pkg/errors traverse library chains; Is/As recurse into multi-cause branches in order; the root API forwards to the right implementation with parameters in order. " +
 			"NOT decided: differential agreement with errors.Is/As/pkg-errors.Cause on all inputs.",
 		Trusted: []string{"go/ssa", "the standard library's own Is/As/Unwrap semantics"},
 	})
 	register(&Prop{
 		ID:    "C13",
-		Rules: []*Rule{rWalkMulti, rTreeRec, scoped(rOpaque, "the causes of multi-cause nodes", func(_ *core.Ctx, k string) bool { return containsAny(k, "causes", "MultierrorCauses", "opaqueLeafCauses") }), rOwnedBranches, {Name: "R-LOOP-EXITS", Doc: rLoopExits.Doc, Run: func(c *core.Ctx) { runLoopExits(c, map[string]bool{"markers.Is": true, "markers.IsAny": true, "report.visitAllMulti": true}) }}},
+		Rules: []*Rule{rWalkMulti, rTreeRec, scoped(rOpaque, "the causes of multi-cause nodes", func(_ *core.Ctx, k string) bool { return containsAny(k, "causes", "MultierrorCauses", "opaqueLeafCauses") }), rOwnedBranches, rLoopAlias, {Name: "R-LOOP-EXITS", Doc: rLoopExits.Doc, Run: func(c *core.Ctx) { runLoopExits(c, map[string]bool{"markers.Is": true, "markers.IsAny": true, "report.visitAllMulti": true}) }}},
 		Explain: "Decides that every tree walker (Is, IsAny, As, formatter, report visitor, encoder) applies itself to each branch of every chain node's UnwrapMulti in forward order, and that multi-cause types are leaves for Unwrap/UnwrapOnce. " +
 			"NOT decided: 'exactly when' (no false positives of the search), Join dropping nils / nil result, Error() = newline-joined branch texts.",
 		Trusted: []string{"go/ssa"},
@@ -132,28 +132,28 @@ func init() {
 		Rules: []*Rule{rCmpGuard, {Name: "R-BOUNDS", Doc: rBounds.Doc + " (restricted to package markers: equalMarks' lock-step indexing is also the 'difference in chain length makes them different' clause)",
 			Run: func(c *core.Ctx) {
 				runBounds(c, func(rel, fn string) bool { return rel == "markers" })
-			}}, rRecover, rNilSafe, rMarkLayers, rCtorCause, {Name: "R-LOOP-EXITS", Doc: rLoopExits.Doc, Run: func(c *core.Ctx) { runLoopExits(c, map[string]bool{"markers.Is": true, "markers.IsAny": true}) }}},
+			}}, rRecover, rNilSafe, rMarkLayers, rCtorCause, rWalkCurrent, rMemo, scoped(rAlwaysWraps, "Mark", func(_ *core.Ctx, k string) bool { return strings.Contains(k, "Mark(") }), scoped(rStdIdentity, "identity tests", func(_ *core.Ctx, k string) bool { return containsAny(k, "errors.Is", "errors.As") }), {Name: "R-LOOP-EXITS", Doc: rLoopExits.Doc, Run: func(c *core.Ctx) { runLoopExits(c, map[string]bool{"markers.Is": true, "markers.IsAny": true}) }}},
 		Explain: "Decides the totality clauses of Is/IsAny and the chain-length clause of mark equivalence: no unguarded interface comparison, no unproven lock-step index in markers, Error() of foreign errors only under recover, and no nil dereference reachable with nil inputs over the whole accessor surface. " +
 			"NOT decided: reflexivity, monotonicity under wrappers, IsAny = OR of Is, and 'exactly when' (semantic equivalences over all pairs of errors).",
 		Trusted: []string{"go/ssa", "reflect.Type.Comparable semantics", "nilness lattice"},
 	})
 	register(&Prop{
 		ID:    "C16",
-		Rules: []*Rule{rDepth, rOrderOneLine, scoped(rOneParser, "GetOneLineSource", func(_ *core.Ctx, k string) bool { return containsAny(k, "GetOneLineSource", "getOneLineSourceFromPkgStack") })},
+		Rules: []*Rule{rDepth, rMemo, rOrderOneLine, scoped(rOneParser, "GetOneLineSource", func(_ *core.Ctx, k string) bool { return containsAny(k, "GetOneLineSource", "getOneLineSourceFromPkgStack") })},
 		Explain: "Decides the depth arithmetic of every exported stack-capturing or domain-computing function of the root package, errutil, withstack and domains, for ALL depths and all forwarding paths at once (affine equation S = 1 [+ depth]). " +
 			"NOT decided: GetOneLineSource's text parsing; the Go runtime's skip semantics (inlined frames) are trusted.",
 		Trusted: []string{"go/ssa", "semantics of runtime.Callers(skip)/runtime.Caller(skip) incl. inlined frames"},
 	})
 	register(&Prop{
 		ID:    "C10",
-		Rules: []*Rule{rNil, rShape, rWrapDual, rCtorCause, rFormatArg, rFmtPath, forwardScoped("New*", "Wrap*", "With*", "Errorf", "Handled*", "Opaque", "Mark", "CombineErrors", "Join*", "AssertionFailed*", "NewAssertionErrorWithWrappedErrf", "HandleAsAssertionFailure*", "UnimplementedError*")},
+		Rules: []*Rule{rNil, rShape, rWrapDual, rCtorCause, rAlwaysWraps, rFormatArg, rFmtPath, forwardScoped("New*", "Wrap*", "With*", "Errorf", "Handled*", "Opaque", "Mark", "CombineErrors", "Join*", "AssertionFailed*", "NewAssertionErrorWithWrappedErrf", "HandleAsAssertionFailure*", "UnimplementedError*")},
 		Explain: "Decides the nil clauses of the property for every exported constructor on every path (nilness abstract interpretation, no execution). " +
 			"NOT decided: equality of Error() strings with the compositional model, 'Join of only nils = nil' (a count over runtime arguments).",
 		Trusted: []string{"go/ssa", "nilness lattice with branch refinement; unknown callees are Top"},
 	})
 	register(&Prop{
 		ID:    "C05",
-		Rules: []*Rule{rAssertOK, rBounds, rNilField, rDecodeNonNil, rTypedNil, rEnumTotal},
+		Rules: []*Rule{rAssertOK, rBounds, rNilField, rDecodeNonNil, rTypedNil, rEnumTotal, rUnmarshalOK},
 		Explain: "Decides, for every site in /repo's hand-written source, structural necessary conditions of 'DecodeError and the decoded error's methods never panic': " +
 			"no unchecked type assertion on wire-controlled values (R-ASSERT-OK). " +
 			"NOT decided: panics inside dependencies (gogo/protobuf UnmarshalAny, grpc status), arbitrary fuzzed bytes, and panic classes other than failed type assertions, out-of-range indexing and nil dereference of decoder-built fields.",
